@@ -21,16 +21,20 @@ import (
 	"net"
 	"os"
 	"strconv"
+	"strings"
 	"sync"
 	"syscall"
 	"time"
 
+	"mosn.io/api"
 	v2 "mosn.io/mosn/pkg/config/v2"
 	"mosn.io/mosn/pkg/configmanager"
+	"mosn.io/mosn/pkg/log"
 	"mosn.io/mosn/pkg/network"
 	"mosn.io/mosn/pkg/server"
 	"mosn.io/mosn/pkg/stagemanager"
 	"mosn.io/mosn/pkg/types"
+	"mosn.io/pkg/utils"
 
 	. "vh/vhlib"
 )
@@ -108,6 +112,11 @@ func c11Transfer(run *Run, mu *mosnUnderTest, xl v2.Listener) int {
 	for _, k := range bigOffsets {
 		conns = append(conns, &xferConn{Kind: "partial-large", Offset: k})
 	}
+	// connections that are IDLE at hand-over (empty read buffer): right after the warm-up, and after one more complete
+	// request/reply exchange (the buffer was filled and drained exactly)
+	for i := 0; i < 3; i++ {
+		conns = append(conns, &xferConn{Kind: "idle"}, &xferConn{Kind: "idle-after-complete-frame"})
+	}
 	nIn := run.N(4, 12)
 	for i := 0; i < nIn; i++ {
 		conns = append(conns, &xferConn{Kind: "in-flight", Frame: len(sample)})
@@ -153,6 +162,14 @@ func c11Transfer(run *Run, mu *mosnUnderTest, xl v2.Listener) int {
 				xc.Offset = len(xc.frame)
 			}
 			c.SetWriteDeadline(time.Now().Add(2 * time.Second))
+			if xc.Kind == "idle-after-complete-frame" {
+				pre := uint32(xferIDBase() + 50000 + i)
+				c.Write(boltRequest(pre, fixedBody(5)))
+				if n, e := readReplies(c, pre, generous, 0); n != 1 {
+					xc.Err = "set-up: no reply to the request before the hand-over: " + e
+					return
+				}
+			}
 			if xc.Offset > 0 {
 				c.Write(xc.frame[:xc.Offset])
 			}
@@ -201,6 +218,14 @@ func c11Transfer(run *Run, mu *mosnUnderTest, xl v2.Listener) int {
 		fmt.Println("new handler AddOrUpdateListener:", err)
 		return 2
 	}
+	// the new side reports every handed-over connection at INFO: the hand-over runs with the default logger at INFO or at
+	// DEBUG (by seed; the direct hand-overs below use the other level); output goes to the configured path (/dev/null)
+	mainLevel, otherLevel := log.INFO, log.DEBUG
+	if run.Seed%2 == 1 {
+		mainLevel, otherLevel = log.DEBUG, log.INFO
+	}
+	log.DefaultLogger.SetLogLevel(mainLevel)
+	defer log.DefaultLogger.SetLogLevel(log.FATAL)
 	go network.TransferServer(newH)
 	time.Sleep(80 * time.Millisecond)
 	newH.StartListeners(context.Background())
@@ -251,6 +276,17 @@ func c11Transfer(run *Run, mu *mosnUnderTest, xl v2.Listener) int {
 	}
 	wg.Wait()
 	conns = append(conns, nx)
+	// ---- direct hand-overs at the other log level: the new side of transferNewConn (listener callbacks' OnAccept with the
+	// accept channel and the transferred bytes, in a recovered goroutine), for nothing / an empty buffer / a prefix buffered
+	log.DefaultLogger.SetLogLevel(otherLevel)
+	dBufs, dKs := [][]byte{nil, {}, nil}, []int{0, 0, 7}
+	if n, _ := strconv.Atoi(os.Getenv("VH_DIRECT_N")); n > 0 {
+		for i := 0; i < n; i++ {
+			dBufs, dKs = append(dBufs, []byte{}), append(dKs, 0)
+		}
+	}
+	direct := directHandOvers(newH, dBufs, dKs)
+	log.DefaultLogger.SetLogLevel(log.FATAL)
 
 	hwWG.Wait()
 	hw.report(run)
@@ -261,17 +297,36 @@ func c11Transfer(run *Run, mu *mosnUnderTest, xl v2.Listener) int {
 		run.Fail("upgrade:connections-not-handed-over", fmt.Sprintf("only %d of %d xprotocol connections reached the new handler through the transfer socket", transferred, want),
 			map[string]interface{}{"part": "transfer", "handed_over": transferred, "expected": want})
 	}
-	sh := run.NewShard(inlineGen(genTransferTokens)+c11Header, "xfer_case", "xfer_mismatches transfer_buffer_has_room")
+	run.Sum.Extra["hand_over_log_levels"] = map[string]interface{}{"transfer": fmt.Sprint(mainLevel), "direct": fmt.Sprint(otherLevel)}
+	sh := run.NewShard(inlineGen(genTransferTokens)+c11Header, "xfer_case", "xfer_mismatches transfer_buffer_has_room transfer_buffer_always_published")
+	for _, d := range direct {
+		rep := map[string]interface{}{"part": "transfer-direct", "connection": d, "log_level": fmt.Sprint(otherLevel)}
+		if d.Err != "" && strings.HasPrefix(d.Err, "set-up") {
+			run.Count(fmt.Sprintf("xfer-direct|%d|skip", d.Offset), false, "upgrade-direct-skipped-setup-failed")
+			continue
+		}
+		run.Count(fmt.Sprintf("xfer-direct|%s|%d", d.Kind, d.Offset), true, "upgrade-direct-"+d.Kind)
+		if d.Replies == 0 {
+			sig := "upgrade:request-on-handed-over-connection-lost:direct"
+			if d.Offset == 0 {
+				sig = "transfer:handed-over-idle-connection-never-served"
+			}
+			run.Fail(sig, fmt.Sprintf("direct hand-over (%s, %d bytes buffered, logger at %v): the new side accepted the connection but never answered the request sent on it (%s)", d.Kind, d.Offset, otherLevel, d.Err), rep)
+		}
+		sh.Add(fmt.Sprintf("(%s, %d%%nat, %d%%nat)", CoqBytes(d.frame), d.Offset, d.Replies), rep)
+	}
 	for _, xc := range conns {
 		rep := map[string]interface{}{"part": "transfer", "connection": xc}
 		run.Count(fmt.Sprintf("xfer|%s|%d", xc.Kind, xc.Offset), true, "upgrade-"+xc.Kind)
 		switch {
+		case xc.Replies == 0 && xc.Offset == 0 && xc.Kind != "new-after-switch":
+			run.Fail("transfer:handed-over-idle-connection-never-served", fmt.Sprintf("%s connection (nothing buffered at hand-over, logger at %v): the request sent after the hand-over got no reply (%s)", xc.Kind, mainLevel, xc.Err), rep)
 		case xc.Replies == 0:
 			run.Fail("upgrade:request-on-handed-over-connection-lost:"+xc.Kind, fmt.Sprintf("%s connection (request received up to byte %d of %d at hand-over): no reply (%s)", xc.Kind, xc.Offset, xc.Frame, xc.Err), rep)
 		case xc.Replies > 1:
 			run.Fail("upgrade:request-on-handed-over-connection-answered-twice:"+xc.Kind, fmt.Sprintf("%s connection (offset %d of %d): %d replies", xc.Kind, xc.Offset, xc.Frame, xc.Replies), rep)
 		}
-		if xc.Kind == "partial" || xc.Kind == "partial-large" {
+		if xc.Kind == "partial" || xc.Kind == "partial-large" || strings.HasPrefix(xc.Kind, "idle") {
 			// model: old process fed the first k bytes, hand-over, new process fed the rest: number of frames extracted
 			sh.Add(fmt.Sprintf("(%s, %d%%nat, %d%%nat)", CoqBytes(xc.frame), xc.Offset, xc.Replies), rep)
 		}
@@ -443,4 +498,90 @@ func (hw *halfWritten) report(run *Run) {
 	sh.Add(fmt.Sprintf("(%s, %s, %s, %s)", CoqN(uint64(hw.RefLen1)), CoqN(uint64(hw.RefLen2)), CoqBool(hw.Intact), CoqZ(int64(hw.Resp2At))), rep)
 	sh.Close()
 	run.Sample(rep)
+}
+
+// directHandOvers plays the new side of network.transferNewConn on the real listener callbacks: a TCP connection accepted
+// by the harness is given to OnAccept with the accept channel and the transferred bytes (nil, empty or the first k bytes of
+// the request), in a recovered goroutine; the client then sends the rest of its request and waits for the reply.
+func directHandOvers(newH types.ConnectionHandler, bufs [][]byte, ks []int) []*xferConn {
+	var out []*xferConn
+	l := newH.FindListenerByName(xferListener)
+	if l == nil {
+		return nil
+	}
+	ln := listenLocal()
+	defer ln.Close()
+	for i, k := range ks {
+		xc := &xferConn{Kind: "direct-prefix", Offset: k, id: uint32(xferIDBase() + 70000 + i)}
+		out = append(out, xc)
+		// a hand-over that is not served is played again (twice) on a fresh connection: a defect of the new side is
+		// deterministic, a disturbance of the harness' own socket pair is not; the last attempt is the one reported
+		for attempt := 0; attempt < 3; attempt++ {
+			directHandOver(l, ln, xc, bufs[i], attempt)
+			if xc.Replies > 0 || strings.HasPrefix(xc.Err, "set-up") {
+				break
+			}
+		}
+	}
+	return out
+}
+
+func directHandOver(l types.Listener, ln net.Listener, xc *xferConn, buf []byte, attempt int) {
+	k := xc.Offset
+	xc.Err, xc.Replies = "", 0
+	xc.id += uint32(1000 * attempt)
+	for once := true; once; once = false {
+		switch {
+		case k == 0 && buf == nil:
+			xc.Kind = "direct-idle-nil-buffer"
+		case k == 0:
+			xc.Kind = "direct-idle-empty-buffer"
+		}
+		xc.frame = boltRequest(xc.id, fixedBody(20))
+		xc.Frame = len(xc.frame)
+		c, err := dialLocal(ln.Addr().String(), 2*time.Second)
+		if err != nil {
+			xc.Err = "set-up: " + err.Error()
+			continue
+		}
+		var rawc net.Conn
+		for { // the accepted connection must be the one just dialled (a stray connect from elsewhere is dropped)
+			if rawc, err = ln.Accept(); err != nil || rawc.RemoteAddr().String() == c.LocalAddr().String() {
+				break
+			}
+			rawc.Close()
+		}
+		if err != nil {
+			xc.Err = "set-up: " + err.Error()
+			c.Close()
+			continue
+		}
+		data := buf
+		if k > 0 {
+			data = append([]byte{}, xc.frame[:k]...)
+		}
+		ch := make(chan api.Connection, 1)
+		panicked := make(chan string, 1)
+		utils.GoWithRecover(func() {
+			l.GetListenerCallbacks().OnAccept(rawc, l.IsOriginalDst(), nil, ch, data, nil)
+		}, func(r interface{}) { panicked <- fmt.Sprint("panic on the new side: ", r) })
+		select {
+		case <-ch:
+		case <-time.After(generous):
+			xc.Err = "the new side did not pass the connection back"
+		}
+		c.SetWriteDeadline(time.Now().Add(2 * time.Second))
+		c.Write(xc.frame[k:])
+		n, e := readReplies(c, xc.id, 6*time.Second, 300*time.Millisecond) // three attempts: 18 s in all before "never served"
+		xc.Replies = n
+		if xc.Err == "" {
+			xc.Err = e
+		}
+		select {
+		case p := <-panicked:
+			xc.Err = p
+		default:
+		}
+		c.Close()
+	}
 }
